@@ -65,7 +65,10 @@ def r1_siblings(run, w):
     chain = H.guards_of(rj.node, raises[0].stmt)
     loops = [s for (s, f) in chain if isinstance(s, ast.For)]
     ifs = [s for (s, f) in chain if isinstance(s, ast.If)]
-    if len(loops) == 2 and len(ifs) == 1 and text(loops[0].iter) == p and not loops[0].orelse:
+    if not (len(loops) == 2 and len(ifs) == 1):
+      raise AnalysisError("_reject_unresolved_temp_ids: unrecognised shape (expected two nested "
+                          "loops and one test around the raise)")
+    if text(loops[0].iter) == p and not loops[0].orelse:
       outer, inner = text(loops[0].target), text(loops[1].target)
       it = loops[1].iter
       covers = isinstance(it, ast.IfExp) and text(it.body) == outer and \
